@@ -206,7 +206,7 @@ def _make_timeline(rng, n):
 
 def _make_world(rng, prof, task):
     small = rng.random() < 0.45
-    n = rng.randint(2, 5) if small else rng.randint(2, prof["max_samples"])
+    n = rng.randint(1, 5) if small else rng.randint(2, prof["max_samples"])
     ts, period, kind = _make_timeline(rng, n)
     ego = [rng.uniform(-500, 500), rng.uniform(-500, 500), rng.uniform(-5, 5), rng.uniform(-math.pi, math.pi)]
     if rng.random() < 0.1:
@@ -377,6 +377,10 @@ def _thr_spec(rng, n_labels, lo, hi, multi_p, edge=None):
         n_thr = len(vals)
     if rng.random() < 0.3:
         rng.shuffle(vals)
+    if rng.random() < 0.1:
+        vals = [int(v) if (not math.isinf(v) and v >= 1.0) else v for v in vals]   # integers are legal thresholds
+        vals = sorted(set(vals), key=float)
+        n_thr = len(vals)
     spelling = rng.choice(["flat", "nested", "nested_per_label"])
     if spelling == "flat" and n_thr != n_labels:
         return list(vals)
@@ -962,6 +966,8 @@ def make_plan(seed, run, profile_name, clean=None, force=None):
         lookups.append({"t": int(t), "tol": int(tl), "interp": rng.random() < 0.6})
 
     reuse_configs = rng.random() < 0.5
+    reuse_estimates = rng.random() < 0.5
+    stamp_as_gt_time = rng.random() < 0.4
     sibling = rng.random() < prof.get("sibling_p", 0.0)
     plan = {
         "version": 1,
@@ -985,6 +991,10 @@ def make_plan(seed, run, profile_name, clean=None, force=None):
         "twins": list(prof["twins"]),
         # a driver may build its per-frame configs once and pass the same objects for every frame, or build new ones
         "reuse_configs": reuse_configs,
+        # a re-delivered message may be handed over as the very same estimate objects, or as freshly built ones
+        "reuse_estimates": reuse_estimates,
+        # estimates may be stamped with the message stamp or (as perception_lsim.py does) with the ground-truth frame's time
+        "stamp_as_gt_time": stamp_as_gt_time,
         "sibling": sibling,
     }
     return plan
